@@ -55,6 +55,11 @@ type RepProc struct {
 }
 
 // Cluster is one volume: controller + replicas + model of acknowledged data.
+// AgentPortWidth is the number of ports a sync agent may hand to ssync receivers (--listen-port-range; jiva's default
+// range holds 101). A narrow range makes the allocator wrap around within one rebuild, which is where receivers left
+// behind by failed transfers meet new ones.
+var AgentPortWidth = 20
+
 type Cluster struct {
 	Name  string
 	RF    int
@@ -174,7 +179,7 @@ func (cl *Cluster) StartRep(p *RepProc) error {
 
 func (cl *Cluster) startAgent(p *RepProc) error {
 	af, _ := os.OpenFile(p.Log+".agent", os.O_CREATE|os.O_APPEND|os.O_WRONLY, 0644)
-	p.agent = exec.Command(cl.Bin, "sync-agent", "--listen", p.IP+":9504", "--listen-port-range", fmt.Sprintf("%d-%d", p.PortBase, p.PortBase+19))
+	p.agent = exec.Command(cl.Bin, "sync-agent", "--listen", p.IP+":9504", "--listen-port-range", fmt.Sprintf("%d-%d", p.PortBase, p.PortBase+AgentPortWidth-1))
 	p.agent.Dir = p.Dir
 	p.agent.Stdout, p.agent.Stderr = af, af
 	p.agent.SysProcAttr = &syscall.SysProcAttr{Pdeathsig: syscall.SIGKILL, Setpgid: true}
